@@ -183,6 +183,16 @@ def cases(ctx):
                             # with an explicit header the view hands the caller's generator itself to its iterators
                             yield {'target': 'fromdicts', 'n': n, 'buffersize': None, 'cache': True, 'fail': None, 'failpass': None,
                                    'steps': _histories(m, ks, family, release), 'header': True}
+        # a lagging reader: iterator 0 is a rows ahead, iterator 1 has read b < a rows back from the spill file, then 0 pulls c more
+        # from the generator (the spill file is shared: its position is wherever the last reader or writer left it), then both finish
+        for a in range(2, n + 2):
+            for b in range(1, a):
+                for c in (1, 2):
+                    for hdr_given in (False, True):
+                        steps = [['iter', 0], ['next', 0, a], ['iter', 1], ['next', 1, b], ['next', 0, c], ['next', 1, 'all'], ['next', 0, 'all'],
+                                 ['iter', 2], ['next', 2, 'all'], ['dropview'], ['drop', 0], ['drop', 1], ['drop', 2]]
+                        yield {'target': 'fromdicts', 'n': n, 'buffersize': None, 'cache': True, 'fail': None, 'failpass': None, 'steps': steps,
+                               'header': hdr_given}
         for fail in range(0, n + 1):
             for ks in itertools.product((1, n + 2), repeat=2):
                 yield {'target': 'fromdicts', 'n': n, 'buffersize': None, 'cache': True, 'fail': fail, 'failpass': 1,
